@@ -291,6 +291,8 @@ func jsonUniverses(j *jobCtx) []Universe {
 	for _, k := range []string{"binaryheap", "priorityqueue"} {
 		add(k, &heapUniverse{kind: k, cmp: "prioid", elems: []int{11, 12, 21, 31}, maxLen: pick(3, 4)})
 		add(k, &heapUniverse{kind: k, cmp: "maxprio", elems: []int{11, 21, 31}, maxLen: 3})
+		// distinguishable elements that compare equal: the dequeue order after a reload must be the same
+		add(k, &heapUniverse{kind: k, cmp: "prio", elems: []int{11, 12, 21, 22}, maxLen: 4})
 	}
 	add("hashset", &setUniverse{kind: "hashset", n: pick(3, 4), argLen: 1})
 	add("linkedhashset", &setUniverse{kind: "linkedhashset", n: pick(3, 4), argLen: 1})
